@@ -614,7 +614,7 @@ package chain
 //@   ensures [no-flush] !mayHaveCalled("Store.Flush")
 //@   ensures [frame] m.store == old(m.store) && applied == old(applied) && body == old(body) && supp == old(supp) && hdr == old(hdr) && states == old(states)
 //
-//@ func (*Manager).applyTip props C01,C03
+//@ func (*Manager).applyTip props C01,C03,C04
 //@   requires managerInv(m) && chainCoherent() && recordInv() && appliedInv()
 //@   ensures [step] result == nil ==> m.tipState.Index.ID == index.ID && sheight == m.tipState.Index.Height && best == old(best)[m.tipState.Index.Height := index.ID]
 //@        && (index.ID in supp) && (index.ID in applied)
